@@ -206,89 +206,172 @@ Example C01_pd_nonvacuous :
 Proof. vm_compute. repeat split; try reflexivity. eexists; eexists; split; reflexivity. Qed.
 Print Assumptions C01_pd_nonvacuous.
 
-(* ================================================================ Registry *)
+(* ================================================================ Registry: IPv4, IA_NA and PD families *)
 
-(* every pool of the registry keeps the pool invariant through every registry history
-   (allocate from profile, release, reserve in pool, reserve/release by IP, direction change) *)
-Theorem C01_registry_pools_no_leak :
-  forall pfs ks st evs k c ps,
-    reg_run_from Repaired (reg_init pfs) ks = Some (st, evs) ->
-    assoc_find key_eqb k (r_allocs st) = Some (c, ps) ->
-    NoDup (free ps) /\ forall a, In a (free ps) <-> (assignable c a = true /\ lm_lookup a (leases ps) = None).
+(* every allocator of every family keeps the pool invariant through every registry history (allocate
+   from profile, release in a named pool, reserve in pool, reserve by containment walk, release in
+   pool, release by address from every pool / by prefix from the first containing pool, direction
+   change): its free list is a duplicate-free enumeration of assignable minus held.
+   For a PD allocator the keys are indices; C01_pd_injective ties them to prefixes. *)
+Theorem C01_registry_no_leak :
+  forall pfs ks st evs f k ac ps,
+    reg_run_from Repaired (reg_init Repaired pfs) ks = Some (st, evs) ->
+    assoc_find key_eqb k (r_allocs st f) = Some (ac, ps) ->
+    NoDup (free ps) /\
+    forall a, In a (free ps) <-> (assignable (acfg_pool ac) a = true /\ lm_lookup a (leases ps) = None).
 Proof.
-  intros pfs ks st evs k c ps H E. eapply rinv_find; [|exact E].
+  intros pfs ks st evs f k ac ps H E. eapply rinv_find; [|exact E].
   eapply rinv_run; [apply rinv_init | exact H].
 Qed.
-Print Assumptions C01_registry_pools_no_leak.
+Print Assumptions C01_registry_no_leak.
 
-(* AllocateFromProfile answered (k, a): a is assignable in pool k and held by nobody there; and either the
-   override names k, or k is in the profile's list, has the subscriber's VRF, the override (if any) had
-   no free address, and every earlier same-VRF pool of the list had no free address *)
+(* AllocateFromProfile / AllocateIANAFromProfile / AllocatePDFromProfile answered (k, o):
+   o is confined to allocator k and held by nobody there (address: in range, not excluded; prefix: a
+   /plen of the pool, aligned, index unheld); and either the override names k, or k is in the profile's
+   list of that family, has the subscriber's VRF, the override (if any) had nothing free, and every
+   earlier same-VRF pool of the list had nothing free *)
 Theorem C01_profile_order :
-  forall pfs ks st evs pf ov vrf s k a st' o,
-    reg_run_from Repaired (reg_init pfs) ks = Some (st, evs) ->
-    reg_step Repaired st (RAlloc pf ov vrf s (Some (k, a))) = Some (st', o) ->
-    o = ROAddr k a /\
-    (exists c ps, assoc_find key_eqb k (r_allocs st) = Some (c, ps) /\
-                  assignable c a = true /\ lm_lookup a (leases ps) = None) /\
+  forall pfs ks st evs f pf ov vrf s k o st' r,
+    reg_run_from Repaired (reg_init Repaired pfs) ks = Some (st, evs) ->
+    reg_step Repaired st (RAlloc f pf ov vrf s (Some (k, o))) = Some (st', r) ->
+    r = ROAns k o /\
+    (exists ac ps, assoc_find key_eqb k (r_allocs st f) = Some (ac, ps) /\ answer_ok ac ps o) /\
     ((ov <> 0 /\ k = (pf, ov)) \/
-     (exists l1 l2, pools_of st pf = l1 ++ k :: l2 /\ vrf_of st k = vrf /\
-                    (ov = 0 \/ has_free st (pf, ov) = false) /\
-                    forall k', In k' l1 -> vrf_of st k' = vrf -> has_free st k' = false)).
+     (exists l1 l2, pools_of st f pf = l1 ++ k :: l2 /\ vrf_of Repaired st f k = vrf /\
+                    (ov = 0 \/ has_free st f (pf, ov) = false) /\
+                    forall k', In k' l1 -> vrf_of Repaired st f k' = vrf -> has_free st f k' = false)).
 Proof.
-  intros pfs ks st evs pf ov vrf s k a st' o H. apply alloc_answer.
+  intros pfs ks st evs f pf ov vrf s k o st' r H. apply alloc_answer.
   eapply rinv_run; [apply rinv_init | exact H].
 Qed.
 Print Assumptions C01_profile_order.
 
 (* exhaustion through a profile only when the override and every same-VRF pool of the profile are full *)
 Theorem C01_profile_exhausted :
-  forall st pf ov vrf s st' o,
-    reg_step Repaired st (RAlloc pf ov vrf s None) = Some (st', o) ->
-    (ov = 0 \/ has_free st (pf, ov) = false) /\
-    forall k, In k (pools_of st pf) -> vrf_of st k = vrf -> has_free st k = false.
+  forall st f pf ov vrf s st' o,
+    reg_step Repaired st (RAlloc f pf ov vrf s None) = Some (st', o) ->
+    (ov = 0 \/ has_free st f (pf, ov) = false) /\
+    forall k, In k (pools_of st f pf) -> vrf_of Repaired st f k = vrf -> has_free st f k = false.
 Proof. exact alloc_exhausted. Qed.
 Print Assumptions C01_profile_exhausted.
 
 (* "has no free address" means what it says *)
 Theorem C01_has_free_spec :
-  forall pfs ks st evs k, reg_run_from Repaired (reg_init pfs) ks = Some (st, evs) ->
-    (has_free st k = true <->
-     exists c ps a, assoc_find key_eqb k (r_allocs st) = Some (c, ps) /\
-                    assignable c a = true /\ lm_lookup a (leases ps) = None).
+  forall pfs ks st evs f k, reg_run_from Repaired (reg_init Repaired pfs) ks = Some (st, evs) ->
+    (has_free st f k = true <->
+     exists ac ps a, assoc_find key_eqb k (r_allocs st f) = Some (ac, ps) /\
+                     assignable (acfg_pool ac) a = true /\ lm_lookup a (leases ps) = None).
 Proof.
-  intros pfs ks st evs k H. apply has_free_spec. eapply rinv_run; [apply rinv_init | exact H].
+  intros pfs ks st evs f k H. apply has_free_spec. eapply rinv_run; [apply rinv_init | exact H].
 Qed.
 Print Assumptions C01_has_free_spec.
 
-(* the list walked is the profile's pools in ascending priority (v4) / configuration order (v6) *)
+(* the list walked is the profile's pools in ascending priority (IPv4) / configuration order (IA_NA, PD) *)
 Theorem C01_profile_list_sorted :
-  forall st pf,
-    pools_of (init_profile st pf) (rf_name pf) =
-      map (fun p => (rf_name pf, rp_name p)) (if rf_sorted pf then sort_by_prio (rf_pools pf) else rf_pools pf) /\
+  forall v st pf,
+    pools_of (init_profile v st pf) (rf_fam pf) (rf_name pf) =
+      map (fun p => (rf_name pf, rp_name p))
+          (match rf_fam pf with F4 => sort_by_prio (rf_pools pf) | _ => rf_pools pf end) /\
     Sorted.StronglySorted prio_le (sort_by_prio (rf_pools pf)) /\
     Permutation.Permutation (sort_by_prio (rf_pools pf)) (rf_pools pf).
 Proof.
-  intros st pf. split; [apply init_profile_pools | apply sort_by_prio_spec].
+  intros v st pf. split; [apply init_profile_pools | apply sort_by_prio_spec].
 Qed.
 Print Assumptions C01_profile_list_sorted.
 
-(* non-vacuity: two pools in VRF 1 (priorities 5 and 1) and one without VRF; a VRF-1 subscriber is
-   served from the priority-1 pool first, then from the priority-5 pool, then exhaustion; the pool
-   without VRF is never used for it; an override is honoured *)
+(* (repaired) the VRF a pool is filed under depends on pools of its own family only *)
+Theorem C01_vrf_per_family :
+  forall f g pf st p k, f <> g ->
+    vrf_of Repaired (init_pool Repaired f pf st p) g k = vrf_of Repaired st g k.
+Proof. exact init_pool_vrf_other. Qed.
+Print Assumptions C01_vrf_per_family.
+
+(* the code as found keeps ONE pool->VRF map keyed "profile/pool": an IA_NA pool in VRF 7 makes the
+   equally named PD pool (configured without VRF) serve VRF-7 subscribers and refuse default-VRF ones *)
+Theorem C01_vrf_per_family_refuted :
+  exists pfs f k vrf s o st' r,
+    (forall pf p, In pf pfs -> rf_fam pf = f -> In p (rf_pools pf) -> rp_vrf p = 0) /\
+    vrf <> 0 /\
+    reg_step SharedVrf (reg_init SharedVrf pfs) (RAlloc f 1 0 vrf s (Some (k, o))) = Some (st', r) /\
+    reg_step SharedVrf (reg_init SharedVrf pfs) (RAlloc f 1 0 0 s None) = Some (reg_init SharedVrf pfs, ROExhausted).
+Proof.
+  exists ex_collide, FPD, (1, 1), 7, 9, (OP 42540766411282592856903984951653826560 56 128).
+  eexists. eexists. split.
+  - intros pf p [<-|[<-|[]]] Hf; simpl in Hf; try discriminate. intros [<-|[]]. reflexivity.
+  - split; [discriminate|]. split; vm_compute; reflexivity.
+Qed.
+Print Assumptions C01_vrf_per_family_refuted.
+
+Example C01_vrf_repaired :
+  reg_step Repaired (reg_init Repaired ex_collide) (RAlloc FPD 1 0 7 9 None)
+    = Some (reg_init Repaired ex_collide, ROExhausted) /\
+  exists st', reg_step Repaired (reg_init Repaired ex_collide)
+    (RAlloc FPD 1 0 0 9 (Some ((1, 1), OP 42540766411282592856903984951653826560 56 128)))
+    = Some (st', ROAns (1, 1) (OP 42540766411282592856903984951653826560 56 128)).
+Proof. split; [vm_compute; reflexivity | eexists; vm_compute; reflexivity]. Qed.
+Print Assumptions C01_vrf_repaired.
+
+(* ResolveV4 / ResolveV6 (pkg/dhcp/resolve.go) keep every allocator's invariant, and ResolveV4 hands
+   out either the caller's address after a successful reservation or an AllocateFromProfile answer
+   (to which C01_profile_order applies) *)
+Theorem C01_resolve_keeps_invariant :
+  forall st, RInv st ->
+    (forall pf ov vrf s have obs wobs st' r,
+       resolve4 Repaired st pf ov vrf s have obs wobs = Some (st', r) -> RInv st') /\
+    (forall pf naov pdov vrf s hna hpd ona opd wna wpd st' r,
+       resolve6 Repaired st pf naov pdov vrf s hna hpd ona opd wna wpd = Some (st', r) -> RInv st').
+Proof.
+  intros st F. split.
+  - intros. eapply resolve4_inv; eauto.
+  - intros. eapply resolve6_inv; eauto.
+Qed.
+Print Assumptions C01_resolve_keeps_invariant.
+
+Theorem C01_resolve4_answer :
+  forall st pf ov vrf s have obs wobs st' a pool,
+    resolve4 Repaired st pf ov vrf s have obs wobs = Some (st', R4 a pool) ->
+    (have = Some a /\ pool = None /\
+     reg_step Repaired st (RReserve F4 (RA (Some a)) s wobs) = Some (st', ROOk)) \/
+    (have = None /\ exists k, pool = Some k /\
+       reg_step Repaired st (RAlloc F4 pf ov vrf s obs) = Some (st', ROAns k (OA a))).
+Proof. exact resolve4_answer. Qed.
+Print Assumptions C01_resolve4_answer.
+
+(* non-vacuity: IPv4 pools in VRF 1 (priorities 5 and 1) and one without VRF; a VRF-1 subscriber is
+   served from the priority-1 pool first, then the priority-5 pool, then exhaustion; the VRF-less pool
+   is never used for it; an override is honoured; a PD pool answers; ResolveV6 allocates both parts *)
 Definition ex_reg : list rprofile :=
-  [ {| rf_name := 1; rf_sorted := true;
+  [ {| rf_name := 1; rf_fam := F4;
        rf_pools := [ {| rp_name := 1; rp_prio := 5; rp_vrf := 1;
-                        rp_cfg := Some {| p_fam := V4; p_lo := 10; p_hi := 10; p_excl := [] |} |};
+                        rp_cfg := Some (APool {| p_fam := V4; p_lo := 10; p_hi := 10; p_excl := [] |}) |};
                      {| rp_name := 2; rp_prio := 1; rp_vrf := 1;
-                        rp_cfg := Some {| p_fam := V4; p_lo := 20; p_hi := 20; p_excl := [] |} |};
+                        rp_cfg := Some (APool {| p_fam := V4; p_lo := 20; p_hi := 20; p_excl := [] |}) |};
                      {| rp_name := 3; rp_prio := 0; rp_vrf := 0;
-                        rp_cfg := Some {| p_fam := V4; p_lo := 30; p_hi := 31; p_excl := [] |} |} ] |} ].
+                        rp_cfg := Some (APool {| p_fam := V4; p_lo := 30; p_hi := 31; p_excl := [] |}) |} ] |};
+    {| rf_name := 2; rf_fam := FNA;
+       rf_pools := [ {| rp_name := 1; rp_prio := 0; rp_vrf := 0;
+                        rp_cfg := Some (APool {| p_fam := V6; p_lo := 4096; p_hi := 4097; p_excl := [] |}) |} ] |};
+    {| rf_name := 2; rf_fam := FPD;
+       rf_pools := [ {| rp_name := 1; rp_prio := 0; rp_vrf := 0; rp_cfg := Some (APd ex_pd) |} ] |} ].
 Example C01_registry_nonvacuous :
-  pools_of (reg_init ex_reg) 1 = [(1, 3); (1, 2); (1, 1)] /\
-  exists st evs,
-    reg_run_from Repaired (reg_init ex_reg)
-      [RAlloc 1 0 1 7 (Some ((1, 2), (V4, 20))); RAlloc 1 0 1 8 (Some ((1, 1), (V4, 10))); RAlloc 1 0 1 9 None;
-       RAlloc 1 3 1 9 (Some ((1, 3), (V4, 30)))] = Some (st, evs).
-Proof. vm_compute. split; [reflexivity | eexists; eexists; reflexivity]. Qed.
+  pools_of (reg_init Repaired ex_reg) F4 1 = [(1, 3); (1, 2); (1, 1)] /\
+  (exists st evs,
+    reg_run_from Repaired (reg_init Repaired ex_reg)
+      [RAlloc F4 1 0 1 7 (Some ((1, 2), OA (V4, 20))); RAlloc F4 1 0 1 8 (Some ((1, 1), OA (V4, 10)));
+       RAlloc F4 1 0 1 9 None; RAlloc F4 1 3 1 9 (Some ((1, 3), OA (V4, 30)));
+       RAlloc FPD 2 0 0 4 (Some ((2, 1), OP (pd_net ex_pd) 72 128));
+       RReserve FPD (RP (Pfx (Some (V6, pd_net ex_pd)) 72 128)) 5 (Some (2, 1));
+       RReleaseByValue FPD (RP (Pfx (Some (V6, pd_net ex_pd + 9)) 72 128)) (Some (2, 1));
+       RAlloc FPD 2 0 0 6 (Some ((2, 1), OP (pd_net ex_pd) 72 128))] = Some (st, evs)
+    /\ map snd evs = [ROAns (1, 2) (OA (V4, 20)); ROAns (1, 1) (OA (V4, 10)); ROExhausted; ROAns (1, 3) (OA (V4, 30));
+                      ROAns (2, 1) (OP (pd_net ex_pd) 72 128); ROReserved; ROOk;
+                      ROAns (2, 1) (OP (pd_net ex_pd) 72 128)]) /\
+  (exists st r, resolve6 Repaired (reg_init Repaired ex_reg) 2 0 0 0 3 None None
+                  (Some ((2, 1), OA (V6, 4096))) (Some ((2, 1), OP (pd_net ex_pd) 72 128)) None None = Some (st, r)
+                /\ r6_nil r = false).
+Proof.
+  split; [vm_compute; reflexivity|]. split.
+  - eexists. eexists. split; vm_compute; reflexivity.
+  - eexists. eexists. split; vm_compute; reflexivity.
+Qed.
 Print Assumptions C01_registry_nonvacuous.
